@@ -765,5 +765,26 @@ func bodies() []body {
 			}
 			return params(e.GetParameters()), nil
 		}})
+	// the same on sparse data: the only configuration in which the estimator hands
+	// jobs to the pool (one SAGA worker per thread on a slice of the data, averaged)
+	bs = append(bs, body{name: "vector.LogisticRegression.sparse", nested: false,
+		sizes: func(T int) []int { return []int{4} },
+		run: func(n int, p tp.ThreadPool) ([]float64, error) {
+			e, err := vectorEstimator.NewLogisticRegression(3, true)
+			if err != nil {
+				return nil, err
+			}
+			e.MaxIterations = 2
+			e.Seed = 1
+			rows := [][]float64{{1, -1, 0.5, 1}, {1, 2, 0, 0}, {1, 0.5, 3, 1}, {1, -2, 1, 0}}
+			xs := []ConstVector{}
+			for i := 0; i < n; i++ {
+				xs = append(xs, AsSparseConstFloat64Vector(NewDenseFloat64Vector(rows[i])))
+			}
+			if err := twice(p, func(q tp.ThreadPool) error { return e.EstimateOnData(xs, nil, q) }); err != nil {
+				return nil, err
+			}
+			return params(e.GetParameters()), nil
+		}})
 	return bs
 }
